@@ -570,15 +570,36 @@ RaisedEv ==
     /\ UNCHANGED <<raw, abs, initRaw, steps, mode, paidVal, paidDisc, prev, grp, ndec, hist>>
     /\ l' = l + 1
 
+\* copy.deepcopy(environment): the copy is a new environment that continues the SAME episode - same state, same
+\* step count, same history of paid values - and from then on the two are independent; every later call of either
+\* is judged as usual (its step counter and its state continue from the parent's)
+ForkEv ==
+    /\ l <= N /\ Ev.ev = "fork" /\ Ev.of \in DOMAIN raw
+    /\ LET ev == Ev  e == ev.env  p == ev.of IN
+       /\ Report(Failed(<< <<"C19", "copy_of_an_environment_has_the_same_state",
+                             ev.same_tensor /\ ev.same_last_obs /\ ~ev.shares_memory>>,
+                           <<"C06", "copy_of_an_environment_keeps_the_step_count", ev.steps = steps[p]>> >>), ev.i)
+       /\ raw' = Put(raw, e, raw[p])
+       /\ initRaw' = Put(initRaw, e, initRaw[p])
+       /\ abs' = Put(abs, e, abs[p])
+       /\ steps' = Put(steps, e, steps[p])
+       /\ mode' = Put(mode, e, mode[p])
+       /\ ndec' = Put(ndec, e, 0)
+       /\ paidVal' = Put(paidVal, e, paidVal[p])
+       /\ paidDisc' = Put(paidDisc, e, paidDisc[p])
+       /\ prev' = Put(prev, e, [valid |-> FALSE])
+    /\ UNCHANGED <<grp, hist>>
+    /\ l' = l + 1
+
 \* an event kind this monitor has no clauses for (validated by another module)
 OtherEv ==
     /\ l <= N /\ Ev.ev \notin {"create", "reset", "step", "genstep", "goal", "raised", "actions", "decode",
-                              "decode_done", "mask", "readable", "plan_end", "episode_end", "c19", "freq", "initstate"}
+                              "decode_done", "mask", "readable", "plan_end", "episode_end", "c19", "freq", "initstate", "fork"}
     /\ UNCHANGED <<raw, abs, initRaw, steps, mode, paidVal, paidDisc, prev, grp, ndec, hist>>
     /\ l' = l + 1
 
 Next == Create \/ ResetEv \/ StepEv \/ GoalEv \/ RaisedEv \/ ActionsEv \/ DecodeEv \/ DecodeDoneEv
-        \/ MaskEv \/ ReadableEv \/ PlanEndEv \/ EpisodeEndEv \/ C19Ev \/ FreqEv \/ InitStateEv \/ MalformedEv \/ OtherEv
+        \/ MaskEv \/ ReadableEv \/ PlanEndEv \/ EpisodeEndEv \/ C19Ev \/ FreqEv \/ InitStateEv \/ ForkEv \/ MalformedEv \/ OtherEv
 
 Spec == Init /\ [][Next]_vars
 
